@@ -26,6 +26,12 @@ PINS = {
     'get_boundary': ('plot.py', 'get_boundary', None),
     'to_vmec': ('to_vmec.py', 'to_vmec', None),
     'convert_to_spline': ('init_axis.py', 'convert_to_spline', None),
+    # the object's constructor and mutators (modelled by theories/ObjModel.v; every property quantifies over objects built and changed through them)
+    'qsc_init': ('qsc.py', '__init__', None),
+    'qsc_calculate': ('qsc.py', 'calculate', None),
+    'qsc_set_dofs': ('qsc.py', 'set_dofs', None),
+    'qsc_change_nfourier': ('qsc.py', 'change_nfourier', None),
+    'qsc_get_dofs': ('qsc.py', 'get_dofs', None),
 }
 
 
